@@ -1,3 +1,4 @@
+import CG.Model.HashText
 import CG.Drv.Hex
 import CG.Model.Header
 import CG.Spec.Pow
@@ -20,6 +21,27 @@ def unitStr : Outcome Unit → String
 /-- returns `model<TAB>spec` -/
 def handle (op : String) (a : List String) : Option String :=
   match op, a with
+  | "c19.hexenc", [h] =>
+    match unhex h with
+    | some h =>
+      let m := "ok:" ++ String.ofList (Model.HashText.encode h)
+      -- reference: the big-endian hex numeral of the little-endian number, 64 digits
+      let n := leToNat h
+      let digits := (List.range 64).reverse.map fun i => Model.HashText.nibbleChar (n / 16 ^ i % 16)
+      some (m ++ "\t" ++ "ok:" ++ String.ofList digits)
+    | none => some "bad-request\tbad-request"
+  | "c19.hexdec", [s] =>
+    match unhex s with
+    | some bytes =>
+      -- the string byte by byte (a byte of a multi-byte character is not a hex digit either way)
+      let cs := bytes.map fun b => Char.ofNat b.toNat
+      let m := match Model.HashText.decode cs with
+        | .ok h => "ok:" ++ hexOrDash h
+        | .err e => "err:" ++ e
+        | .panic p => "panic:" ++ p
+      let spec := if cs.length == 64 && cs.all (fun c => (Model.HashText.charNibble c).isSome) then "class:ok" else "class:err"
+      some (m ++ "\t" ++ spec)
+    | none => some "bad-request\tbad-request"
   | "c19.validate", [ts, bits, hash, prev] =>
     match ts.toNat?, bits.toNat?, unhex hash with
     | some ts, some bits, some hash =>
